@@ -100,6 +100,21 @@ class AScal:
         return "AScal"
 
 
+class ANpScal(AScal):
+    """A NumPy scalar: what a ufunc / arithmetic operator returns when every
+    array operand is 0-d.  Unlike a 0-d array it supports no item
+    assignment."""
+    def __repr__(self):
+        return "ANpScal"
+
+
+class ANpBool(ANpScal):
+    """A NumPy boolean scalar (comparison of scalars); as an index it is a
+    0-d mask."""
+    def __repr__(self):
+        return "ANpBool"
+
+
 def elementwise(*args):
     """Shape of an elementwise ufunc / operator result."""
     shp = ()
@@ -111,7 +126,11 @@ def elementwise(*args):
         elif isinstance(a, (int, float, complex, AScal)) or a is None:
             continue
         else:
+            if isinstance(a, str):
+                continue             # a symbolic size used as a number
             raise Unsupported(f"elementwise operand {a!r}")
+    if any_arr and shp == ():
+        return ANpScal()
     return AArr(shp) if any_arr else AScal()
 
 
@@ -132,7 +151,8 @@ def index_array(a, idx):
     if not isinstance(idx, tuple):
         idx = (idx,)
     n_real = sum((len(i.shape) if isinstance(i, AArr) else 1)
-                 for i in idx if i is not None and i is not Ellipsis)
+                 for i in idx if i is not None and i is not Ellipsis
+                 and not isinstance(i, ANpBool))
     if n_real > len(a.shape):
         raise ShapeError("too many indices")
     if Ellipsis in idx:
@@ -146,6 +166,9 @@ def index_array(a, idx):
     for i in idx:
         if i is None:
             out.append(1)
+            continue
+        if isinstance(i, ANpBool):
+            out.append("#selected")      # 0-d mask: a new leading axis
             continue
         if isinstance(i, AArr):
             # boolean mask covering the next len(i.shape) axes
@@ -444,6 +467,15 @@ class Interp:
             return None
         if isinstance(st, ast.AugAssign):
             if isinstance(st.target, ast.Subscript):
+                base = self.expr(st.target.value, env)
+                if isinstance(base, list):
+                    i = self.expr(st.target.slice, env)
+                    if not isinstance(i, int):
+                        raise Unsupported("list index")
+                    base[i] = self.binop(st.op, base[i],
+                                         self.expr(st.value, env))
+                    return None
+            if isinstance(st.target, ast.Subscript):
                 self.assign(st.target, self.expr(st.value, env), env)
                 return None
             if not isinstance(st.target, ast.Name):
@@ -536,6 +568,17 @@ class Interp:
     def assign(self, t, v, env):
         if isinstance(t, ast.Subscript):
             base = self.expr(t.value, env)
+            if isinstance(base, list):
+                i = self.expr(t.slice, env)
+                if not isinstance(i, int):
+                    raise Unsupported("list index")
+                base[i] = v
+                return
+            if isinstance(base, ANpScal):
+                raise ShapeError(
+                    f"item assignment `{ast.unparse(t)} = ...` on a NumPy "
+                    "scalar (the result of arithmetic on 0-d operands): "
+                    "TypeError for a single (non-composite) object")
             if not isinstance(base, AArr):
                 raise Unsupported("subscript store into non-array")
             region = index_array(base, self.index(t.slice, env))
@@ -575,8 +618,18 @@ class Interp:
                 return elementwise(a, b)
             raise Unsupported("operator on arrays")
         if isinstance(a, AScal) or isinstance(b, AScal):
+            if isinstance(a, ANpScal) or isinstance(b, ANpScal):
+                return ANpScal()
             return AScal()
+        if isinstance(op, (ast.Add, ast.Sub)) and isinstance(a, str) \
+                and isinstance(b, int) and not isinstance(b, bool):
+            return dim_add(a, b if isinstance(op, ast.Add) else -b)
+        if isinstance(op, ast.Add) and isinstance(a, int) \
+                and isinstance(b, str):
+            return dim_add(b, a)
         if isinstance(op, ast.Add):
+            if isinstance(a, list) and isinstance(b, list):
+                return a + b
             if isinstance(a, tuple) and isinstance(b, tuple):
                 return a + b
             if isinstance(a, AVec) and isinstance(b, int):
@@ -711,6 +764,9 @@ class Interp:
                     return v[i]
             if isinstance(v, AArr):
                 return index_array(v, self.index(e.slice, env))
+            if isinstance(v, ANpScal):
+                # NumPy scalars index like 0-d arrays
+                return index_array(AArr(()), self.index(e.slice, env))
             raise Unsupported(f"subscript of {v!r}")
         if isinstance(e, ast.Call):
             return self.callexpr(e, env)
@@ -859,7 +915,10 @@ class Interp:
                 return same if isinstance(op, ast.Is) else not same
             raise Unsupported("identity comparison of non-None values")
         if isinstance(a, AArr) or isinstance(b, AArr):
-            return elementwise(a, b)
+            res = elementwise(a, b)
+            return ANpBool() if isinstance(res, ANpScal) else res
+        if isinstance(a, AScal) or isinstance(b, AScal):
+            return ANpBool()
         if isinstance(a, AVec) and isinstance(b, int):
             if isinstance(op, ast.Eq) and b == 1:
                 out = []
@@ -896,6 +955,17 @@ class Interp:
                 margs = [self.expr(a, env) for a in e.args]
                 mkw = self.keywords(e, env)
                 return self.method(recv, e.func.attr, margs, mkw)
+            if isinstance(recv, AScal):
+                for a in e.args:
+                    self.expr(a, env)
+                if e.func.attr in ("astype", "copy", "conjugate", "item",
+                                   "squeeze"):
+                    return recv
+                if e.func.attr in ("any", "all"):
+                    return ABool()
+                if e.func.attr in ("sum", "max", "min"):
+                    return recv
+                raise Unsupported(f"scalar method .{e.func.attr}")
             if isinstance(recv, AClass) and not self.is_enum(recv.cls):
                 margs = [self.expr(a, env) for a in e.args]
                 mkw = self.keywords(e, env)
@@ -917,6 +987,11 @@ class Interp:
                 return ""
         args = [self.expr(a, env) for a in e.args]
         kw = self.keywords(e, env)
+        if name.startswith("np.") and name not in UFUNCS and args \
+                and isinstance(args[0], ANpScal) and name not in (
+                    "np.zeros_like", "np.ones_like", "np.copy", "np.array",
+                    "np.asarray", "np.atleast_1d"):
+            args[0] = AArr(())       # array functions accept NumPy scalars
         fv = None
         if isinstance(e.func, ast.Name) and e.func.id not in env:
             c = self.class_named(e.func.id)
@@ -945,16 +1020,38 @@ class Interp:
             if isinstance(a0, AArr):
                 cls, und = self.ctor_classes[name]
                 return AObj(cls, proj=a0, unit_ndims=und)
-        if name == "utils.kernel" and args and isinstance(args[0], AArr):
+        mf = self.lookup(name)
+        mf = mf.name if mf is not None and any(
+            ast.unparse(d) == "matrix_func" for d in mf.decorator_list) \
+            else None
+        if (name == "utils.kernel" or mf == "kernel") and args \
+                and isinstance(args[0], AArr):
             sh = args[0].shape
-            return AArr(sh[:-2] + (sh[-1], "q"))
-        if name == "utils.invert" and args and isinstance(args[0], AArr):
+            if len(sh) < 2:
+                raise ShapeError(f"kernel of an array of shape {sh}")
+            q = "q"
+            if isinstance(sh[-1], int) and isinstance(sh[-2], int) \
+                    and sh[-1] > sh[-2]:
+                q = sh[-1] - sh[-2]      # full row rank assumed
+            return AArr(sh[:-2] + (sh[-1], q))
+        if (name == "utils.invert" or mf == "invert") and args \
+                and isinstance(args[0], AArr):
+            sh = args[0].shape
+            if len(sh) < 2 or (sh[-1] != sh[-2]):
+                raise ShapeError(f"inverse of a non-square array {sh}")
             return args[0]
+        if (name in ("utils.eig", "np.linalg.eig") or mf == "eig") and args \
+                and isinstance(args[0], AArr):
+            sh = args[0].shape
+            if len(sh) < 2 or (sh[-1] != sh[-2]):
+                raise ShapeError(f"eigenvalues of a non-square array {sh}")
+            return (AArr(sh[:-1]), AArr(sh))
         if name in ("np.identity", "utils.identity"):
             return AArr((args[0], args[0]))
         if name in ("np.zeros", "np.ones", "utils.zeros", "utils.ones"):
             shp = args[0]
-            return AArr(tuple(shp) if isinstance(shp, tuple) else (shp,))
+            return AArr(tuple(shp) if isinstance(shp, (tuple, list))
+                        else (shp,))
         if name in ("utils.guess_literal_ring",):
             return None
         if name in ("utils.number", "utils.pi", "number", "pi") \
@@ -968,7 +1065,8 @@ class Interp:
                 return AArr((args[0], args[0]))
             if kind in ("zeros", "ones"):
                 shp = args[0]
-                return AArr(tuple(shp) if isinstance(shp, tuple) else (shp,))
+                return AArr(tuple(shp) if isinstance(shp, (tuple, list))
+                            else (shp,))
             if kind == "array_like":
                 if isinstance(args[0], AArr):
                     return args[0]
@@ -1000,6 +1098,10 @@ class Interp:
         if name in ("np.zeros_like", "np.ones_like", "np.copy", "np.array",
                     "np.asarray") and args and isinstance(args[0], AArr):
             return args[0]
+        if name in ("np.zeros_like", "np.ones_like", "np.copy", "np.array",
+                    "np.asarray", "np.atleast_1d") and args \
+                and isinstance(args[0], ANpScal):
+            return AArr((1,) if name == "np.atleast_1d" else ())
         if name == "np.stack":
             items = args[0]
             axis = kw.get("axis", args[1] if len(args) > 1 else 0)
@@ -1034,6 +1136,22 @@ class Interp:
             return AArr(tuple(sh))
         if name == "np.roll":
             return args[0]
+        if name == "np.sum" and isinstance(args[0], AArr):
+            return self.method(args[0], "sum", args[1:], kw)
+        if name in ("np.linalg.det", "utils.det", "det") \
+                and isinstance(args[0], AArr):
+            sh = args[0].shape
+            if len(sh) < 2:
+                raise ShapeError(f"determinant of an array of shape {sh}")
+            return AArr(sh[:-2]) if len(sh) > 2 else ANpScal()
+        if name == "list" and len(args) == 1 and isinstance(
+                args[0], (tuple, list)):
+            return list(args[0])
+        if name == "np.where" and len(args) == 3:
+            res = elementwise(*args)
+            # np.where returns an array even for 0-d operands
+            return AArr(()) if isinstance(res, AScal) and any(
+                isinstance(a, (AArr, ANpScal)) for a in args) else res
         if name == "np.swapaxes" and isinstance(args[0], AArr):
             return self.method(args[0], "swapaxes", args[1:], kw)
         if name == "np.transpose" and isinstance(args[0], AArr) \
@@ -1104,6 +1222,8 @@ class Interp:
                 return tuple(v.items)
             return tuple(v)
         if name == "range":
+            if not all(isinstance(a, int) for a in args):
+                raise Unsupported("range over a symbolic size")
             return tuple(range(*args))
         if name == "len":
             return len(args[0])
